@@ -1156,13 +1156,27 @@ def _find(ex, m, k):
         ek = ent.f[0]
         if isinstance(ek, Ref):            # maps keyed by references (HashMap<&K, _>) compare the referents
             ek = ex.deref_all(ek)
-        c = ek == k
-        if isinstance(c, bool):
-            if c:
-                return i
-        elif ex.branch(c):
+        if _key_eq(ex, ek, k):
             return i
     return -1
+
+
+def _key_eq(ex, a, b):
+    """equality of two hash keys (scalars, references to scalars, tuples of those), branching on symbolic parts"""
+    if isinstance(a, Ref):
+        a = ex.deref_all(a)
+    if isinstance(b, Ref):
+        b = ex.deref_all(b)
+    if isinstance(a, Agg) and isinstance(b, Agg):
+        if a.kind != b.kind or len(a.f) != len(b.f):
+            return False
+        if a.kind not in ('tuple', 'array', 'Option', 'Reverse'):
+            raise Unsupported('hash key of kind ' + a.kind)
+        if a.variant != b.variant:
+            return False
+        return all(_key_eq(ex, x, y) for x, y in zip(a.f, b.f))
+    c = a == b
+    return c if isinstance(c, bool) else ex.branch(c)
 
 
 @prim('HashSet::contains', 'AHashSet::contains', 'HashMap::contains_key', 'AHashMap::contains_key')
@@ -2896,3 +2910,45 @@ def _(ex, a):
     for it in _items_of(ex, a[1]):
         P['BinaryHeap::push'](ex, [a[0], it])
     return UNIT()
+
+
+# ------------------------------------------------------------------ HashMap entry API
+@prim('HashMap::entry', 'AHashMap::entry')
+def _(ex, a):
+    mp = ex.deref(a[0])
+    return Agg('MapEntry', [a[0], a[1], _find(ex, mp, a[1])])
+
+
+def _entry_slot(ex, e, make):
+    mref, key, i = e.f
+    mp = ex.deref(mref)
+    if i < 0:
+        mp.f.append(Agg('tuple', [key, make()]))
+        i = len(mp.f) - 1
+    return Ref(mref.cell, tuple(mref.path) + (('i', i), ('f', 1)))
+
+
+@prim('Entry::or_insert')
+def _(ex, a):
+    return _entry_slot(ex, a[0], lambda: a[1])
+
+
+@prim('Entry::or_insert_with')
+def _(ex, a):
+    return _entry_slot(ex, a[0], lambda: ex.call_closure(a[1], []))
+
+
+@prim('Entry::or_default')
+def _(ex, a):
+    return _entry_slot(ex, a[0], lambda: 0)
+
+
+@prim('Entry::and_modify')
+def _(ex, a):
+    mref, key, i = a[0].f
+    if i >= 0:
+        ex.call_closure(a[1], [Ref(mref.cell, tuple(mref.path) + (('i', i), ('f', 1)))])
+    return a[0]
+
+
+DROP_HOOKS['MapEntry'] = lambda ex, v: None
